@@ -40,6 +40,11 @@ pub struct StreamSpec {
     /// the generator claims the request is well-formed per RFC 9113 8.1-8.3
     pub valid: bool,
     pub mutated: bool,
+    /// Pad Length of every non-empty DATA frame (PADDED flag), None = unpadded
+    pub padding: Option<u8>,
+    /// pause between the HEADERS frame and what follows, so that sozu has already written the
+    /// request head to the backend when DATA / trailers arrive (microseconds, 0 = one burst)
+    pub gap_after_headers_us: u32,
 }
 
 #[derive(Clone, Debug)]
@@ -89,7 +94,9 @@ fn clean_stream(rng: &mut Rng, case: u64, i: usize) -> StreamSpec {
             trailers = Some(vec![f("x-trailer", "t1")]);
         }
     }
-    StreamSpec { headers: h, data, trailers, end_stream: true, valid: true, mutated: false }
+    let padding = if rng.chance(1, 4) { Some(rng.range(0, 40) as u8) } else { None };
+    let gap_after_headers_us = if rng.chance(1, 4) { rng.range(8_000, 25_000) as u32 } else { 0 };
+    StreamSpec { headers: h, data, trailers, end_stream: true, valid: true, mutated: false, padding, gap_after_headers_us }
 }
 
 fn set(h: &mut HeaderList, name: &str, v: &[u8]) {
@@ -630,10 +637,16 @@ fn exec(cell: &Cell, input: &H2Case, t: &Timing, nonce: u64) -> H2Exchange {
         all.insert(sid);
         let headers_end = s.end_stream && s.data.is_empty() && s.trailers.is_none();
         let mut r = c.send_headers(sid, &s.headers, headers_end);
+        if r.is_ok() && s.gap_after_headers_us > 0 && !headers_end {
+            // let sozu connect to the backend and flush the head first
+            let until = Instant::now() + Duration::from_micros((s.gap_after_headers_us * t.pause_scale) as u64);
+            while Instant::now() < until && c.process_incoming(until.saturating_duration_since(Instant::now())).is_ok() && !c.is_closed() {}
+        }
         if r.is_ok() {
             for (k, d) in s.data.iter().enumerate() {
                 let last = k + 1 == s.data.len();
-                r = c.send_data(sid, d, last && s.trailers.is_none() && s.end_stream, None);
+                let pad = if d.is_empty() { None } else { s.padding };
+                r = c.send_data(sid, d, last && s.trailers.is_none() && s.end_stream, pad);
                 if r.is_err() {
                     break;
                 }
@@ -736,7 +749,8 @@ fn spec_json(s: &StreamSpec) -> Value {
     json!({"headers": s.headers.iter().map(|(n, v)| json!([esc_limited(n, 120), esc_limited(v, 300)])).collect::<Vec<_>>(),
         "data_frames": s.data.iter().map(|d| esc_limited(d, 200)).collect::<Vec<_>>(),
         "trailers": s.trailers.as_ref().map(|t| t.iter().map(|(n, v)| json!([esc_limited(n, 120), esc_limited(v, 300)])).collect::<Vec<_>>()),
-        "end_stream": s.end_stream, "well_formed_by_construction": s.valid, "mutated": s.mutated})
+        "end_stream": s.end_stream, "well_formed_by_construction": s.valid, "mutated": s.mutated,
+        "data_pad_length": s.padding, "gap_after_headers_us": s.gap_after_headers_us})
 }
 
 fn witness(ctx: &Ctx, input: &H2Case, ex: &H2Exchange, extra: Value, mode: &str) -> Value {
@@ -1047,6 +1061,20 @@ fn run_one(ctx: &Ctx, cell: &mut Cell, input: &H2Case, rep: &mut Report, nonce: 
         let (m, rel, end) = (it.next().unwrap_or(""), it.next().unwrap_or(""), it.next().unwrap_or(""));
         rep.obs(&format!("h2/cl_vs_data/method/{m}"), 1);
         rep.obs(&format!("h2/cl_vs_data/{rel}/{end}"), 1);
+    }
+    for s in &input.streams {
+        if s.padding.is_some() && s.data.iter().any(|d| !d.is_empty()) {
+            rep.obs("h2/streams_with_padded_data", 1);
+            if hget(&s.headers, "content-length").is_none() {
+                rep.obs("h2/streams_with_padded_data_reframed_as_chunked", 1);
+            }
+        }
+        if s.gap_after_headers_us > 0 && (!s.data.is_empty() || s.trailers.is_some()) {
+            rep.obs("h2/streams_with_gap_after_headers", 1);
+            if s.trailers.is_some() && hget(&s.headers, "content-length").is_some() {
+                rep.obs("h2/length_framed_streams_with_late_trailers", 1);
+            }
+        }
     }
     rep.obs(if input.concurrent { "h2/streams_sent_concurrently" } else { "h2/streams_sent_one_by_one" }, 1);
     if input.headers_split.is_some() {
